@@ -1077,9 +1077,21 @@ Variable mt : mtable.
 Definition simple_name (n : nameref) : bool := match n with NStr _ | NVar _ => true | NMacro m => simple_value (macro mt m) end.
 Definition zone_ok (n : nameref) (a : rval) (b : option rval) : bool :=
   simple_name n && plain_rval mt a && match b with Some b' => plain_rval mt b' | None => true end.
-(* (a zone range is an operand of `set` only: c = the command is a colour command) *)
+Definition opt_plain (b : option rval) : bool := match b with Some b' => plain_rval mt b' | None => true end.
+Definition inline_ok (n : nameref) (rows cols : span) : bool :=
+  simple_name n &&
+  match rows, cols with
+  | Some (a, ob), Some (c, oc) => plain_rval mt a && opt_plain ob && plain_rval mt c && opt_plain oc
+  | _, _ => false
+  end.
+(* (a zone range or a matrix range is an operand of `set` only: c = the command is a colour command) *)
 Definition simple_opnd (c : bool) (o : opnd) : bool :=
-  match o with Target _ n => simple_name n | Zone n a b => c && zone_ok n a b | _ => false end.
+  match o with
+  | Target _ n => simple_name n
+  | Zone n a b => c && zone_ok n a b
+  | MatrixInline n rows cols _ => c && inline_ok n rows cols
+  | _ => false
+  end.
 Definition simple_ops (c : bool) (ops : operands) : bool :=
   match ops with OpAll => true | OpList l => forallb (simple_opnd c) l | OpDefault => true end.
 
@@ -1089,6 +1101,12 @@ Lemma c_ops_nil op : c_ops rt mt false op (OpList []) = [].
 Proof. reflexivity. Qed.
 Definition zone_code (n : nameref) (a : rval) (b : option rval) : program :=
   c_name mt n ++ c_range rt mt (a, b) R_FIRST_ZONE R_LAST_ZONE ++ [I2 OC_MOVEQ (POperand OD_MZ_LIGHT) (PReg R_OPERAND); I0 OC_COLOR].
+Definition inline_code (n : nameref) (rows cols : span) (rows_first : bool) : program :=
+  c_name mt n ++ [I0 OC_MATRIX] ++ c_spans rt mt rows cols rows_first ++ [I0 OC_COLOR; I1 OC_END (POperand OD_MATRIX)] ++
+  [I2 OC_MOVEQ (POperand OD_MATRIX_LIGHT) (PReg R_OPERAND); I0 OC_COLOR].
+Lemma c_ops_cons_inline n rows cols rf r : c_ops rt mt false OC_COLOR (OpList (MatrixInline n rows cols rf :: r)) =
+  inline_code n rows cols rf ++ c_ops rt mt false OC_COLOR (OpList r).
+Proof. unfold inline_code. cbn [c_ops c_operand]. rewrite <- !app_assoc. reflexivity. Qed.
 Lemma c_ops_cons_zone n a b r : c_ops rt mt false OC_COLOR (OpList (Zone n a b :: r)) = zone_code n a b ++ c_ops rt mt false OC_COLOR (OpList r).
 Proof. unfold zone_code. cbn [c_ops c_operand]. rewrite <- !app_assoc. reflexivity. Qed.
 Lemma c_ops_cons op k n r : c_ops rt mt false op (OpList (Target k n :: r)) =
@@ -1235,6 +1253,322 @@ Proof.
   split; [rewrite Hst5; reflexivity|]. cbn [app]. rewrite app_nil_r. exact Htr5.
 Qed.
 
+(* ---- set L row r1 r2 column c1 c2 ---- *)
+Lemma do_stage_agree a b r1 r2 c1 c2 : agree a b -> regs_full b ->
+  match do_stage b r1 r2 c1 c2 with
+  | Ok rb => exists ra, do_stage a r1 r2 c1 c2 = Ok ra /\ agree ra rb /\ regs_full rb /\ rf_get ra R_DISC_FORWARD = rf_get a R_DISC_FORWARD
+  | Err e => do_stage a r1 r2 c1 c2 = Err e
+  end.
+Proof.
+  intros H Hf. unfold do_stage. rewrite (get_color_agree a b H), (agree_rreg a b R_MATRIX H eq_refl).
+  destruct (rf_get_color b) as [c|e]; cbn [bind]; [|reflexivity].
+  destruct (rreg b R_MATRIX) as [| | | | | | | | |h w cells]; try reflexivity; try (exists a; repeat split; assumption).
+  destruct (index_of r1) as [a1|]; cbn [bind]; [|reflexivity]. destruct (index_of r2) as [a2|]; cbn [bind]; [|reflexivity].
+  destruct (index_of c1) as [b1|]; cbn [bind]; [|reflexivity]. destruct (index_of c2) as [b2|]; cbn [bind]; [|reflexivity].
+  destruct (normalize_axis a1 a2 h) as [top bottom]. destruct (normalize_axis b1 b2 w) as [lft rgt].
+  destruct (overlay h w cells top bottom lft rgt c) as [cells'|]; cbn [bind]; [|reflexivity].
+  eexists. split; [reflexivity|]. split; [apply agree_set; exact H|]. split; [apply regs_full_set; exact Hf|]. apply rf_get_set_other. reflexivity.
+Qed.
+
+Lemma do_matrix_light_agree a b w name : agree a b -> regs_full b ->
+  match do_matrix_light b w name with
+  | Ok d => exists ra, do_matrix_light a w name = Ok (mkDev ra (d_world d) (d_events d)) /\ agree ra (d_regs d) /\ regs_full (d_regs d) /\
+                       rf_get ra R_DISC_FORWARD = rf_get a R_DISC_FORWARD
+  | Err e => do_matrix_light a w name = Err e
+  end.
+Proof.
+  intros H Hf. unfold do_matrix_light. destruct (as_name name) as [n|]; [|exists a; repeat split; assumption].
+  destruct (find_light w n) as [l|]; [|exists a; repeat split; assumption].
+  destruct (l_kind l); try (exists a; repeat split; assumption).
+  rewrite (agree_rreg a b R_MATRIX H eq_refl), (unit_mode_agree a b H), (agree_rreg a b R_DEFAULT H eq_refl), (agree_rreg a b R_DURATION H eq_refl).
+  destruct (rreg b R_MATRIX) as [| | | | | | | | |h0 wd cells]; try reflexivity.
+  destruct (rf_unit_mode b) as [m|e]; cbn [bind]; [|reflexivity].
+  destruct (map_res _ cells) as [conv|e]; cbn [bind]; [|reflexivity].
+  destruct (as_raw_time m (rreg b R_DURATION)) as [d|e]; cbn [bind]; [|reflexivity].
+  destruct (map_res standardize_raw _) as [sent|e]; cbn [bind]; [|reflexivity].
+  destruct m; (eexists; split; [reflexivity|]; cbn [d_regs]);
+    try (split; [exact H|split; [exact Hf|reflexivity]]);
+    (split; [apply agree_set; exact H|split; [apply regs_full_set; exact Hf|apply rf_get_set_other; reflexivity]]).
+Qed.
+
+(* a device command that may change registers a script can see (get, the matrix commands) *)
+Lemma dev_sim_regs (f : regfile -> world -> dres) :
+  (forall a b w, agree a b -> regs_full b ->
+     match f b w with
+     | Ok d => exists ra, f a w = Ok (mkDev ra (d_world d) (d_events d)) /\ agree ra (d_regs d) /\ regs_full (d_regs d) /\
+                          rf_get ra R_DISC_FORWARD = rf_get a R_DISC_FORWARD
+     | Err e => f a w = Err e
+     end) ->
+  forall ss s ss1, sim ss s -> dev_step ss (f (s_regs ss) (s_world ss)) = ROk tt ss1 ->
+  exists s1 evs, dev_outcome s (f (m_regs s) (m_world s)) = Next s1 evs /\ sim ss1 s1 /\ m_pc s1 = m_pc s + 1 /\
+                 (m_stack s1, fr s1) = (m_stack s, fr s) /\ rev (s_trace ss1) = rev (s_trace ss) ++ evs.
+Proof.
+  intros Hresp ss s ss1 Hsim Hd.
+  pose proof (Hresp (m_regs s) (s_regs ss) (s_world ss) (sim_regs _ _ Hsim) (sim_full _ _ Hsim)) as Hvm.
+  rewrite (sim_world _ _ Hsim).
+  destruct (f (s_regs ss) (s_world ss)) as [d|e] eqn:Ef; cbn [dev_step] in Hd; [|discriminate].
+  injection Hd as Hd. subst ss1. destruct Hvm as (ra & Ha & Hag & Hfull & Hdisc). rewrite Ha. cbn [dev_outcome d_regs d_world d_events].
+  eexists. exists (d_events d). split; [reflexivity|].
+  destruct Hsim as [Hr Hfu Hg Hfr Hl Hw Hu Hdf].
+  split.
+  { constructor; cbn; try assumption; try reflexivity. rewrite Hdisc. exact Hdf. }
+  split; [reflexivity|]. split; [reflexivity|].
+  cbn [s_trace]. rewrite rev_append_rev, rev_app_distr, rev_involutive. reflexivity.
+Qed.
+
+Definition range_end (b : option rval) (last : register) : program :=
+  match b with Some b' => c_rval rt mt b' (DReg last) | None => [I2 OC_MOVEQ PNone (PReg last)] end.
+(* first .. last of a range into two scratch registers *)
+Lemma range_runs first last a b : visible first = false -> writable first = true -> register_eqb R_DISC_FORWARD first = false ->
+  visible last = false -> writable last = true -> register_eqb R_DISC_FORWARD last = false ->
+  plain_rval mt a = true -> opt_plain b = true ->
+  forall im ss s fuel x y sa sb, sim ss s -> code_at im (m_pc s) (c_range rt mt (a, b) first last) ->
+  eval_rval rt mt fuel false ss a = ROk x sa ->
+  (match b with Some b' => eval_rval rt mt fuel false sa b' | None => ROk VNone sa end) = ROk y sb ->
+  sa = ss /\ sb = ss /\
+  exists n, esteps n im s = Some (put_vm (put_vm s (DReg first) x (zlength (c_rval rt mt a (DReg first)))) (DReg last) y (zlength (range_end b last)), []).
+Proof.
+  intros Hv1 Hw1 Hd1 Hv2 Hw2 Hd2 Hpa Hpb im ss s fuel x y sa sb Hsim Hc Ea Eb.
+  unfold c_range in Hc. cbn [fst snd] in Hc. apply code_at_app in Hc. destruct Hc as [Hca Hcb].
+  destruct (c_rval_runs rt mt a (DReg first) Hpa (plain_ok_hidden first a Hpa Hv1 Hw1) im ss s x sa fuel Hsim Hca Ea) as [Hsa [n1 E1]]. subst sa.
+  set (s1 := put_vm s (DReg first) x (zlength (c_rval rt mt a (DReg first)))) in *.
+  assert (Hs1 : sim ss s1) by (apply sim_put_reg_hidden; assumption).
+  assert (Hcb1 : code_at im (m_pc s1) (range_end b last)) by exact Hcb.
+  split; [reflexivity|]. destruct b as [b'|]; cbn [opt_plain range_end] in *.
+  - destruct (c_rval_runs rt mt b' (DReg last) Hpb (plain_ok_hidden last b' Hpb Hv2 Hw2) im ss s1 y sb fuel Hs1 Hcb1 Eb) as [Hsb [n2 E2]]. subst sb.
+    split; [reflexivity|]. exists (n1 + n2)%nat. replace (@nil event) with (@nil event ++ @nil event) by reflexivity. eapply esteps_app; eassumption.
+  - injection Eb as <- <-. split; [reflexivity|]. cbn [code_at] in Hcb1. destruct Hcb1 as [Hf _].
+    exists (n1 + 1)%nat. replace (@nil event) with (@nil event ++ @nil event) by reflexivity. eapply esteps_app; [exact E1|].
+    exact (proj1 (load_hidden im ss s1 PNone last VNone Hs1 Hv2 Hd2 Hw2 eq_refl Hf)).
+Qed.
+
+Lemma eval_span_S f ss a ob : eval_span rt mt (S f) false ss (Some (a, ob)) =
+  (let* (x, s1) := eval_rval rt mt f false ss a in
+   let* (y, s2) := (match ob with Some b => eval_rval rt mt f false s1 b | None => ROk VNone s1 end) in ROk (x, y) s2).
+Proof. destruct ob; reflexivity. Qed.
+Lemma eval_spans_S f ss rows cols (rows_first : bool) : eval_spans rt mt (S f) false ss rows cols rows_first =
+  (if rows_first then
+     let* (r, s1) := eval_span rt mt f false ss rows in let* (c, s2) := eval_span rt mt f false s1 cols in ROk (fst r, snd r, fst c, snd c) s2
+   else
+     let* (c, s1) := eval_span rt mt f false ss cols in let* (r, s2) := eval_span rt mt f false s1 rows in ROk (fst r, snd r, fst c, snd c) s2).
+Proof. reflexivity. Qed.
+Lemma exec_operand_inline f ss (c : bool) n rows cols rows_first : exec_operand rt mt (S f) false ss c (MatrixInline n rows cols rows_first) =
+  (let name := name_of mt ss n in
+   let s0 := s_with_regs ss (do_matrix_begin (s_regs ss) (s_world ss) name) in
+   let* (rc, s1) := eval_spans rt mt f false s0 rows cols rows_first in
+   let '(r1, r2, c1, c2) := rc in
+   match do_stage (s_regs s1) r1 r2 c1 c2 with
+   | Ok rf => dev_step (s_with_regs s1 rf) (do_matrix_light rf (s_world s1) name)
+   | Err e => RErr e s1
+   end).
+Proof. reflexivity. Qed.
+Lemma do_stage_keeps a r1 r2 c1 c2 ra r : do_stage a r1 r2 c1 c2 = Ok ra -> register_eqb r R_MATRIX = false -> rf_get ra r = rf_get a r.
+Proof.
+  unfold do_stage. destruct (rf_get_color a) as [c|e]; cbn [bind]; [|discriminate].
+  destruct (rreg a R_MATRIX) as [| | | | | | | | |h w cells]; try discriminate; [intros H _; injection H as <-; reflexivity|].
+  destruct (index_of r1) as [a1|]; cbn [bind]; [|discriminate]. destruct (index_of r2) as [a2|]; cbn [bind]; [|discriminate].
+  destruct (index_of c1) as [b1|]; cbn [bind]; [|discriminate]. destruct (index_of c2) as [b2|]; cbn [bind]; [|discriminate].
+  destruct (normalize_axis a1 a2 h) as [top bottom]. destruct (normalize_axis b1 b2 w) as [lft rgt].
+  destruct (overlay h w cells top bottom lft rgt c) as [cells'|]; cbn [bind]; [|discriminate].
+  intros H Hr. injection H as <-. apply rf_get_set_other. exact Hr.
+Qed.
+
+(* the one-line matrix command with both clauses: the name; MATRIX; the matrix operand; the two ranges in the order written; COLOR
+   (stage); END; the matrix-light operand; COLOR (the whole matrix is sent) *)
+
+Lemma put_reg_other s r x k r' : register_eqb r' r = false -> rf_get (m_regs (put_vm s (DReg r) x k)) r' = rf_get (m_regs s) r'.
+Proof. intros H. cbn [put_vm m_regs]. apply rf_get_set_other. exact H. Qed.
+Lemma put_reg_same s r x k : rf_get (m_regs (put_vm s (DReg r) x k)) r = Some x.
+Proof. cbn [put_vm m_regs]. apply rf_get_set_same. Qed.
+
+Lemma two_ranges f1 l1 f2 l2 a ob c oc :
+  visible f1 = false -> writable f1 = true -> register_eqb R_DISC_FORWARD f1 = false ->
+  visible l1 = false -> writable l1 = true -> register_eqb R_DISC_FORWARD l1 = false ->
+  visible f2 = false -> writable f2 = true -> register_eqb R_DISC_FORWARD f2 = false ->
+  visible l2 = false -> writable l2 = true -> register_eqb R_DISC_FORWARD l2 = false ->
+  register_eqb f1 l1 = false -> register_eqb f1 f2 = false -> register_eqb f1 l2 = false ->
+  register_eqb l1 f2 = false -> register_eqb l1 l2 = false -> register_eqb f2 l2 = false ->
+  plain_rval mt a = true -> opt_plain ob = true -> plain_rval mt c = true -> opt_plain oc = true ->
+  forall im ss s fuel p q sa sb, sim ss s -> code_at im (m_pc s) (c_range rt mt (a, ob) f1 l1 ++ c_range rt mt (c, oc) f2 l2) ->
+  eval_span rt mt (S fuel) false ss (Some (a, ob)) = ROk p sa -> eval_span rt mt (S fuel) false sa (Some (c, oc)) = ROk q sb ->
+  sa = ss /\ sb = ss /\
+  exists n s', esteps n im s = Some (s', []) /\ sim ss s' /\ m_pc s' = m_pc s + zlength (c_range rt mt (a, ob) f1 l1 ++ c_range rt mt (c, oc) f2 l2) /\
+               m_stack s' = m_stack s /\ m_frames s' = m_frames s /\
+               rf_get (m_regs s') f1 = Some (fst p) /\ rf_get (m_regs s') l1 = Some (snd p) /\
+               rf_get (m_regs s') f2 = Some (fst q) /\ rf_get (m_regs s') l2 = Some (snd q) /\
+               (forall r, register_eqb r f1 = false -> register_eqb r l1 = false -> register_eqb r f2 = false -> register_eqb r l2 = false ->
+                          rf_get (m_regs s') r = rf_get (m_regs s) r).
+Proof.
+  intros Hv1 Hw1 Hd1 Hv2 Hw2 Hd2 Hv3 Hw3 Hd3 Hv4 Hw4 Hd4 N12 N13 N14 N23 N24 N34 Hpa Hpob Hpc Hpoc im ss s fuel p q sa sb Hsim Hc Ep Eq.
+  rewrite eval_span_S in Ep.
+  destruct (eval_rval rt mt fuel false ss a) as [x s1|e s1|s1] eqn:Ea; cbn [sbind] in Ep; try discriminate.
+  destruct (match ob with Some b => eval_rval rt mt fuel false s1 b | None => ROk VNone s1 end) as [y s2|e s2|s2] eqn:Eb; cbn [sbind] in Ep; try discriminate.
+  injection Ep as <- <-.
+  apply code_at_app in Hc. destruct Hc as [Hc1 Hc2].
+  destruct (range_runs f1 l1 a ob Hv1 Hw1 Hd1 Hv2 Hw2 Hd2 Hpa Hpob im ss s fuel x y s1 s2 Hsim Hc1 Ea Eb) as [Hs1 [Hs2 [n1 E1]]]. subst s1 s2.
+  set (k1 := zlength (c_rval rt mt a (DReg f1))) in *. set (k2 := zlength (range_end ob l1)) in *.
+  set (sA := put_vm (put_vm s (DReg f1) x k1) (DReg l1) y k2) in *.
+  assert (HsA : sim ss sA) by (apply sim_put_reg_hidden; [apply sim_put_reg_hidden; assumption|assumption|assumption]).
+  assert (Hlen1 : zlength (c_range rt mt (a, ob) f1 l1) = k1 + k2) by (unfold c_range, zlength; cbn [fst snd]; rewrite app_length, Nat2Z.inj_add; reflexivity).
+  assert (Hc2A : code_at im (m_pc sA) (c_range rt mt (c, oc) f2 l2)).
+  { unfold sA. cbn [put_vm m_pc]. rewrite Hlen1 in Hc2. replace (m_pc s + k1 + k2) with (m_pc s + (k1 + k2)) by lia. exact Hc2. }
+  rewrite eval_span_S in Eq.
+  destruct (eval_rval rt mt fuel false ss c) as [x' s1|e s1|s1] eqn:Ec; cbn [sbind] in Eq; try discriminate.
+  destruct (match oc with Some b => eval_rval rt mt fuel false s1 b | None => ROk VNone s1 end) as [y' s2|e s2|s2] eqn:Ed; cbn [sbind] in Eq; try discriminate.
+  injection Eq as <- <-.
+  destruct (range_runs f2 l2 c oc Hv3 Hw3 Hd3 Hv4 Hw4 Hd4 Hpc Hpoc im ss sA fuel x' y' s1 s2 HsA Hc2A Ec Ed) as [Hs1 [Hs2 [n2 E2]]]. subst s1 s2.
+  set (k3 := zlength (c_rval rt mt c (DReg f2))) in *. set (k4 := zlength (range_end oc l2)) in *.
+  set (sB := put_vm (put_vm sA (DReg f2) x' k3) (DReg l2) y' k4) in *.
+  split; [reflexivity|]. split; [reflexivity|]. exists (n1 + n2)%nat, sB.
+  split; [replace (@nil event) with (@nil event ++ @nil event) by reflexivity; eapply esteps_app; eassumption|].
+  split; [apply sim_put_reg_hidden; [apply sim_put_reg_hidden; assumption|assumption|assumption]|].
+  split.
+  { unfold sB, sA. cbn [put_vm m_pc]. unfold zlength. rewrite app_length, Nat2Z.inj_add. fold (zlength (c_range rt mt (a, ob) f1 l1)). rewrite Hlen1.
+    assert (Hlen2 : Z.of_nat (length (c_range rt mt (c, oc) f2 l2)) = k3 + k4) by (unfold c_range, k3, k4, zlength; cbn [fst snd]; rewrite app_length, Nat2Z.inj_add; reflexivity).
+    rewrite Hlen2. lia. }
+  split; [reflexivity|]. split; [reflexivity|]. cbn [fst snd].
+  assert (S12 : register_eqb l1 f1 = false) by (destruct f1, l1; try reflexivity; discriminate).
+  assert (S13 : register_eqb f2 f1 = false) by (destruct f1, f2; try reflexivity; discriminate).
+  assert (S14 : register_eqb l2 f1 = false) by (destruct f1, l2; try reflexivity; discriminate).
+  assert (S23 : register_eqb f2 l1 = false) by (destruct l1, f2; try reflexivity; discriminate).
+  assert (S24 : register_eqb l2 l1 = false) by (destruct l1, l2; try reflexivity; discriminate).
+  assert (S34 : register_eqb l2 f2 = false) by (destruct f2, l2; try reflexivity; discriminate).
+  split; [unfold sB, sA; rewrite (put_reg_other _ l2 _ _ f1 N14), (put_reg_other _ f2 _ _ f1 N13), (put_reg_other _ l1 _ _ f1 N12); apply put_reg_same|].
+  split; [unfold sB, sA; rewrite (put_reg_other _ l2 _ _ l1 N24), (put_reg_other _ f2 _ _ l1 N23); apply put_reg_same|].
+  split; [unfold sB; rewrite (put_reg_other _ l2 _ _ f2 N34); apply put_reg_same|].
+  split; [unfold sB; apply put_reg_same|].
+  intros r R1 R2 R3 R4. unfold sB, sA. rewrite (put_reg_other _ l2 _ _ r R4), (put_reg_other _ f2 _ _ r R3), (put_reg_other _ l1 _ _ r R2), (put_reg_other _ f1 _ _ r R1). reflexivity.
+Qed.
+
+Lemma matrix_begin_is_set w name : exists v, forall rf, do_matrix_begin rf w name = rf_set rf R_MATRIX v.
+Proof.
+  unfold do_matrix_begin. destruct (match as_name name with Some n0 => _ | None => _ end) as [h wd]. eexists. intros rf. reflexivity.
+Qed.
+Lemma sim_one_inline n rows cols rows_first im ss s ss1 fuel : inline_ok n rows cols = true -> sim ss s ->
+  code_at im (m_pc s) (inline_code n rows cols rows_first) ->
+  exec_operand rt mt fuel false ss true (MatrixInline n rows cols rows_first) = ROk tt ss1 ->
+  exists k s1 evs, esteps k im s = Some (s1, evs) /\ sim ss1 s1 /\ m_pc s1 = m_pc s + zlength (inline_code n rows cols rows_first) /\
+                   (m_stack s1, fr s1) = (m_stack s, fr s) /\ rev (s_trace ss1) = rev (s_trace ss) ++ evs.
+Proof.
+  intros Hok Hsim Hc He. unfold inline_ok in Hok. apply andb_true_iff in Hok. destruct Hok as [Hnm Hsp].
+  destruct rows as [[a ob]|]; [|discriminate]. destruct cols as [[c oc]|]; [|discriminate].
+  apply andb_true_iff in Hsp. destruct Hsp as [Hsp Hpoc]. apply andb_true_iff in Hsp. destruct Hsp as [Hsp Hpc]. apply andb_true_iff in Hsp. destruct Hsp as [Hpa Hpob].
+  destruct fuel as [|fuel]; [discriminate|]. rewrite exec_operand_inline in He. cbv zeta in He.
+  set (name := name_of mt ss n) in *.
+  set (ss0 := s_with_regs ss (do_matrix_begin (s_regs ss) (s_world ss) name)) in *.
+  destruct fuel as [|fuel]; [discriminate|]. rewrite eval_spans_S in He. destruct fuel as [|fuel]; [destruct rows_first; discriminate|].
+  (* the code *)
+  unfold inline_code in Hc |- *. apply code_at_app in Hc. destruct Hc as [Hcn Hc].
+  assert (Hzn : zlength (c_name mt n) = 1) by (destruct n; reflexivity). rewrite Hzn in Hc.
+  apply code_at_app in Hc. destruct Hc as [Hmx Hc]. cbn [code_at] in Hmx. destruct Hmx as [Hfm _]. rewrite zlength1 in Hc.
+  apply code_at_app in Hc. destruct Hc as [Hsp Hc].
+  set (R := c_range rt mt (a, ob) R_FIRST_ROW R_LAST_ROW) in *. set (C := c_range rt mt (c, oc) R_FIRST_COLUMN R_LAST_COLUMN) in *.
+  assert (Hspans : c_spans rt mt (Some (a, ob)) (Some (c, oc)) rows_first = [I2 OC_MOVEQ (POperand OD_MATRIX) (PReg R_OPERAND)] ++ (if rows_first then R ++ C else C ++ R)).
+  { unfold c_spans. rewrite !app_nil_r. reflexivity. }
+  rewrite Hspans in *. apply code_at_app in Hsp. destruct Hsp as [Hop Hrc]. cbn [code_at] in Hop. destruct Hop as [Hfo _]. rewrite zlength1 in Hrc.
+  set (kRC := zlength (if rows_first then R ++ C else C ++ R)) in *.
+  assert (HkS : zlength ([I2 OC_MOVEQ (POperand OD_MATRIX) (PReg R_OPERAND)] ++ (if rows_first then R ++ C else C ++ R)) = 1 + kRC)
+    by (unfold kRC, zlength; rewrite app_length, Nat2Z.inj_add; reflexivity).
+  rewrite HkS in Hc. apply code_at_app in Hc. destruct Hc as [Hce Hc]. cbn [code_at] in Hce, Hc. destruct Hce as [Hfc1 [Hfend _]]. destruct Hc as [Hfo2 [Hfc2 _]].
+  (* the name, MATRIX *)
+  destruct (load_name n im ss s Hnm Hsim Hcn) as [E1 Hs1]. fold name in E1, Hs1.
+  set (s1 := put_vm s (DReg R_NAME) name 1) in *.
+  assert (Hn1 : reg s1 R_NAME = name) by (unfold reg, get_reg, s1; cbn [put_vm m_regs]; rewrite rf_get_set_same; reflexivity).
+  set (s2 := advance (with_regs s1 (do_matrix_begin (m_regs s1) (m_world s1) name))).
+  assert (E2 : esteps 1 im s1 = Some (s2, [])).
+  { apply (estep1 im s1 _ _ _ Hfm). cbn [Machine.exec i_op I0]. rewrite Hn1. reflexivity. }
+  assert (Hs2 : sim ss0 s2).
+  { destruct Hs1 as [Hr Hfu Hg Hfr Hl Hw Hu Hdf]. destruct (matrix_begin_is_set (s_world ss) name) as [mv Hmv].
+    constructor; cbn [s2 ss0 advance with_pc with_regs s_with_regs m_regs m_globals m_frames m_world m_unnamed s_regs s_globals s_locals s_world]; try assumption.
+    - rewrite Hw, !Hmv. apply agree_set. exact Hr.
+    - rewrite Hmv. apply regs_full_set. exact Hfu.
+    - rewrite Hw, Hmv. rewrite rf_get_set_other; [exact Hdf|reflexivity]. }
+  assert (Hn2 : rf_get (m_regs s2) R_NAME = Some name).
+  { unfold s2. cbn [advance with_pc with_regs m_regs]. destruct (matrix_begin_is_set (m_world s1) name) as [mv Hmv]. rewrite Hmv.
+    rewrite rf_get_set_other by reflexivity. unfold s1. cbn [put_vm m_regs]. apply rf_get_set_same. }
+  (* the matrix operand *)
+  assert (Hfo' : fetch im (m_pc s2) = Some (I2 OC_MOVEQ (POperand OD_MATRIX) (PReg R_OPERAND))) by exact Hfo.
+  destruct (load_hidden im ss0 s2 (POperand OD_MATRIX) R_OPERAND (VOperand OD_MATRIX) Hs2 eq_refl eq_refl eq_refl eq_refl Hfo') as [E3 Hs3].
+  set (s3 := put_vm s2 (DReg R_OPERAND) (VOperand OD_MATRIX) 1) in *.
+  assert (Hn3 : rf_get (m_regs s3) R_NAME = Some name) by (unfold s3; rewrite put_reg_other by reflexivity; exact Hn2).
+  assert (Ho3 : rf_get (m_regs s3) R_OPERAND = Some (VOperand OD_MATRIX)) by apply put_reg_same.
+  assert (Hrc3 : code_at im (m_pc s3) (if rows_first then R ++ C else C ++ R)) by exact Hrc.
+  (* the two ranges, in the order written *)
+  assert (Hrun : exists r1 r2 c1 c2 n4 s4, eval_spans rt mt (S (S fuel)) false ss0 (Some (a, ob)) (Some (c, oc)) rows_first = ROk (r1, r2, c1, c2) ss0 /\
+            esteps n4 im s3 = Some (s4, []) /\ sim ss0 s4 /\ m_pc s4 = m_pc s3 + kRC /\ m_stack s4 = m_stack s3 /\ m_frames s4 = m_frames s3 /\
+            rf_get (m_regs s4) R_FIRST_ROW = Some r1 /\ rf_get (m_regs s4) R_LAST_ROW = Some r2 /\
+            rf_get (m_regs s4) R_FIRST_COLUMN = Some c1 /\ rf_get (m_regs s4) R_LAST_COLUMN = Some c2 /\
+            rf_get (m_regs s4) R_NAME = Some name /\ rf_get (m_regs s4) R_OPERAND = Some (VOperand OD_MATRIX)).
+  { destruct rows_first.
+    - destruct (eval_span rt mt (S fuel) false ss0 (Some (a, ob))) as [p sa|e sa|sa] eqn:Ep; cbn [sbind] in He; try discriminate.
+      destruct (eval_span rt mt (S fuel) false sa (Some (c, oc))) as [q sb|e sb|sb] eqn:Eq; cbn [sbind] in He; try discriminate.
+      destruct (two_ranges R_FIRST_ROW R_LAST_ROW R_FIRST_COLUMN R_LAST_COLUMN a ob c oc eq_refl eq_refl eq_refl eq_refl eq_refl eq_refl eq_refl eq_refl eq_refl eq_refl eq_refl eq_refl
+                  eq_refl eq_refl eq_refl eq_refl eq_refl eq_refl Hpa Hpob Hpc Hpoc im ss0 s3 fuel p q sa sb Hs3 Hrc3 Ep Eq)
+        as [Hsa [Hsb (n4 & s4 & E4 & Hs4 & Hpc4 & Hsk4 & Hfr4 & G1 & G2 & G3 & G4 & Goth)]]. subst sa sb.
+      exists (fst p), (snd p), (fst q), (snd q), n4, s4. split; [rewrite eval_spans_S, Ep; cbn [sbind]; rewrite Eq; reflexivity|]. split; [exact E4|]. split; [exact Hs4|]. split; [exact Hpc4|]. split; [exact Hsk4|]. split; [exact Hfr4|].
+      split; [exact G1|]. split; [exact G2|]. split; [exact G3|]. split; [exact G4|].
+      split; [rewrite (Goth R_NAME eq_refl eq_refl eq_refl eq_refl); exact Hn3|rewrite (Goth R_OPERAND eq_refl eq_refl eq_refl eq_refl); exact Ho3].
+    - destruct (eval_span rt mt (S fuel) false ss0 (Some (c, oc))) as [q sa|e sa|sa] eqn:Eq; cbn [sbind] in He; try discriminate.
+      destruct (eval_span rt mt (S fuel) false sa (Some (a, ob))) as [p sb|e sb|sb] eqn:Ep; cbn [sbind] in He; try discriminate.
+      destruct (two_ranges R_FIRST_COLUMN R_LAST_COLUMN R_FIRST_ROW R_LAST_ROW c oc a ob eq_refl eq_refl eq_refl eq_refl eq_refl eq_refl eq_refl eq_refl eq_refl eq_refl eq_refl eq_refl
+                  eq_refl eq_refl eq_refl eq_refl eq_refl eq_refl Hpc Hpoc Hpa Hpob im ss0 s3 fuel q p sa sb Hs3 Hrc3 Eq Ep)
+        as [Hsa [Hsb (n4 & s4 & E4 & Hs4 & Hpc4 & Hsk4 & Hfr4 & G1 & G2 & G3 & G4 & Goth)]]. subst sa sb.
+      exists (fst p), (snd p), (fst q), (snd q), n4, s4. split; [rewrite eval_spans_S, Eq; cbn [sbind]; rewrite Ep; reflexivity|]. split; [exact E4|]. split; [exact Hs4|]. split; [exact Hpc4|]. split; [exact Hsk4|]. split; [exact Hfr4|].
+      split; [exact G3|]. split; [exact G4|]. split; [exact G1|]. split; [exact G2|].
+      split; [rewrite (Goth R_NAME eq_refl eq_refl eq_refl eq_refl); exact Hn3|rewrite (Goth R_OPERAND eq_refl eq_refl eq_refl eq_refl); exact Ho3]. }
+  destruct Hrun as (r1 & r2 & c1 & c2 & n4 & s4 & Esp & E4 & Hs4 & Hpc4 & Hsk4 & Hfr4 & G1 & G2 & G3 & G4 & Hn4 & Ho4).
+  rewrite <- eval_spans_S in He. rewrite Esp in He. cbn [sbind] in He.
+  (* COLOR: the stage *)
+  pose proof (do_stage_agree (m_regs s4) (s_regs ss0) r1 r2 c1 c2 (sim_regs _ _ Hs4) (sim_full _ _ Hs4)) as Hst.
+  destruct (do_stage (s_regs ss0) r1 r2 c1 c2) as [rf|e] eqn:Est; [|discriminate]. destruct Hst as (ra & Hra & Hag & Hfull & Hdisc).
+  set (s5 := advance (with_regs s4 ra)).
+  assert (Hpc4' : m_pc s4 = m_pc s + 1 + 1 + 1 + kRC) by (rewrite Hpc4; unfold s3, s2, s1; cbn [put_vm advance with_pc with_regs m_pc]; lia).
+  assert (E5 : esteps 1 im s4 = Some (s5, [])).
+  { assert (Hf : fetch im (m_pc s4) = Some (I0 OC_COLOR)) by (rewrite Hpc4'; replace (m_pc s + 1 + 1 + 1 + kRC) with (m_pc s + 1 + 1 + (1 + kRC)) by lia; exact Hfc1).
+    apply (estep1 im s4 _ _ _ Hf). cbn [Machine.exec i_op I0]. unfold cmd_color, reg, get_reg. rewrite Ho4, G1, G2, G3, G4, Hra. reflexivity. }
+  set (ss5 := s_with_regs ss0 rf) in *.
+  assert (Hs5 : sim ss5 s5).
+  { destruct Hs4 as [Hr Hfu Hg Hfr Hl Hw Hu Hdf].
+    constructor; cbn [s5 ss5 ss0 advance with_pc with_regs s_with_regs m_regs m_globals m_frames m_world m_unnamed s_regs s_globals s_locals s_world]; try assumption.
+    rewrite Hdisc. exact Hdf. }
+  assert (Hn5 : rf_get (m_regs s5) R_NAME = Some name) by (unfold s5; cbn [advance with_pc with_regs m_regs]; rewrite (do_stage_keeps _ _ _ _ _ _ R_NAME Hra eq_refl); exact Hn4).
+  (* END; the matrix-light operand *)
+  set (s6 := advance s5).
+  assert (E6 : esteps 1 im s5 = Some (s6, [])).
+  { assert (Hf : fetch im (m_pc s5) = Some (I1 OC_END (POperand OD_MATRIX))).
+    { unfold s5. cbn [advance with_pc with_regs m_pc]. rewrite Hpc4'. replace (m_pc s + 1 + 1 + 1 + kRC + 1) with (m_pc s + 1 + 1 + (1 + kRC) + Z.of_nat 1) by lia. exact Hfend. }
+    apply (estep1 im s5 _ _ _ Hf). reflexivity. }
+  assert (Hs6 : sim ss5 s6) by (destruct Hs5; constructor; assumption).
+  assert (Hpc6 : m_pc s6 = m_pc s + 1 + 1 + (1 + kRC) + 2) by (unfold s6, s5; cbn [advance with_pc with_regs m_pc]; rewrite Hpc4'; lia).
+  assert (Hfo6 : fetch im (m_pc s6) = Some (I2 OC_MOVEQ (POperand OD_MATRIX_LIGHT) (PReg R_OPERAND))).
+  { rewrite Hpc6. replace (m_pc s + 1 + 1 + (1 + kRC) + 2) with (m_pc s + 1 + 1 + (1 + kRC) + zlength [I0 OC_COLOR; I1 OC_END (POperand OD_MATRIX)]) by reflexivity. exact Hfo2. }
+  destruct (load_hidden im ss5 s6 (POperand OD_MATRIX_LIGHT) R_OPERAND (VOperand OD_MATRIX_LIGHT) Hs6 eq_refl eq_refl eq_refl eq_refl Hfo6) as [E7 Hs7].
+  set (s7 := put_vm s6 (DReg R_OPERAND) (VOperand OD_MATRIX_LIGHT) 1) in *.
+  assert (Hn7 : reg s7 R_NAME = name).
+  { unfold reg, get_reg, s7. rewrite put_reg_other by reflexivity. change (m_regs s6) with (m_regs s5). rewrite Hn5. reflexivity. }
+  assert (Ho7 : rf_get (m_regs s7) R_OPERAND = Some (VOperand OD_MATRIX_LIGHT)) by apply put_reg_same.
+  (* COLOR: the matrix is sent *)
+  change (do_matrix_light rf (s_world ss0) name) with ((fun rf0 w => do_matrix_light rf0 w name) (s_regs ss5) (s_world ss5)) in He.
+  destruct (dev_sim_regs (fun rf0 w => do_matrix_light rf0 w name) (fun p q w Hpq Hq => do_matrix_light_agree p q w name Hpq Hq) ss5 s7 ss1 Hs7 He)
+    as (s8 & evs & Ho8 & Hs8 & Hpc8 & Hst8 & Htr8).
+  assert (E8 : esteps 1 im s7 = Some (s8, evs ++ [])).
+  { assert (Hf : fetch im (m_pc s7) = Some (I0 OC_COLOR)).
+    { unfold s7. cbn [put_vm m_pc]. rewrite Hpc6.
+      replace (m_pc s + 1 + 1 + (1 + kRC) + 2 + 1) with (m_pc s + 1 + 1 + (1 + kRC) + zlength [I0 OC_COLOR; I1 OC_END (POperand OD_MATRIX)] + Z.of_nat 1) by (unfold zlength; cbn [length]; lia). exact Hfc2. }
+    cbn [esteps]. rewrite Hf. cbn [Machine.exec i_op I0]. unfold cmd_color. rewrite Hn7. unfold reg at 1, get_reg. rewrite Ho7, Ho8. reflexivity. }
+  exists (1 + (1 + (1 + (n4 + (1 + (1 + (1 + 1)))))))%nat, s8, ([] ++ ([] ++ ([] ++ ([] ++ ([] ++ ([] ++ ([] ++ (evs ++ [])))))))).
+  split; [eapply esteps_app; [exact E1|eapply esteps_app; [exact E2|eapply esteps_app; [exact E3|eapply esteps_app; [exact E4|eapply esteps_app; [exact E5|eapply esteps_app; [exact E6|eapply esteps_app; [exact E7|exact E8]]]]]]]|].
+  split; [exact Hs8|].
+  split.
+  { rewrite Hpc8. unfold s7. cbn [put_vm m_pc]. rewrite Hpc6.
+    match goal with |- _ = _ + zlength ?L => assert (Hlen : zlength L = 1 + 1 + (1 + kRC) + 2 + 2) end.
+    { unfold zlength in *. rewrite !app_length, !Nat2Z.inj_add. cbn [length]. unfold kRC, zlength. destruct n; cbn [c_name length]; lia. }
+    rewrite Hlen. lia. }
+  split.
+  { rewrite Hst8. unfold fr, s7, s6, s5. cbn [put_vm advance with_pc with_regs m_stack m_frames]. rewrite Hsk4, Hfr4. reflexivity. }
+  cbn [app]. rewrite app_nil_r. rewrite Htr8. reflexivity.
+Qed.
+
 Lemma sim_oplist (c : bool) l : forallb (simple_opnd c) l = true ->
   forall im ss s ss1 fuel, sim ss s -> code_at im (m_pc s) (c_ops rt mt false (cmd_op c) (OpList l)) ->
   exec_oplist rt mt fuel false ss c l = ROk tt ss1 ->
@@ -1246,7 +1580,18 @@ Proof.
     exists 0%nat, s, []. rewrite c_ops_nil. split; [reflexivity|]. split; [exact Hsim|]. split; [unfold zlength; cbn; lia|].
     split; [reflexivity|rewrite app_nil_r; reflexivity].
   - cbn [forallb] in Hl. apply andb_true_iff in Hl. destruct Hl as [Ho Hr].
-    destruct o as [k n|n a b| |]; cbn [simple_opnd] in Ho; try discriminate.
+    destruct o as [k n|n a b|n rows cols rf|]; cbn [simple_opnd] in Ho; try discriminate.
+    3: { (* the one-line matrix command *)
+      apply andb_true_iff in Ho. destruct Ho as [Hcc Hz]. subst c. cbn [cmd_op] in *.
+      destruct fuel as [|fuel]; [discriminate|]. rewrite exec_oplist_cons in He.
+      destruct (exec_operand rt mt fuel false ss true (MatrixInline n rows cols rf)) as [[] sa|e sa|sa] eqn:Ed; cbn [sbind] in He; try discriminate.
+      rewrite c_ops_cons_inline in Hc |- *. apply code_at_app in Hc. destruct Hc as [Hc1 Hc2].
+      destruct (sim_one_inline n rows cols rf im ss s sa fuel Hz Hsim Hc1 Ed) as (k1 & s1 & e1 & E1 & Hs1 & Hpc1 & Hst1 & Htr1).
+      assert (Hc2' : code_at im (m_pc s1) (c_ops rt mt false OC_COLOR (OpList r))) by (rewrite Hpc1; exact Hc2).
+      destruct (IH Hr im sa s1 ss1 fuel Hs1 Hc2' He) as (n2 & s2 & e2 & E2 & Hs2 & Hpc2 & Hst2 & Htr2).
+      exists (k1 + n2)%nat, s2, (e1 ++ e2). split; [eapply esteps_app; eassumption|]. split; [exact Hs2|].
+      split; [rewrite Hpc2, Hpc1; unfold zlength; rewrite app_length, Nat2Z.inj_add; lia|].
+      split; [rewrite Hst2; exact Hst1|]. rewrite Htr2, Htr1, app_assoc. reflexivity. }
     2: { (* a zone range *)
       apply andb_true_iff in Ho. destruct Ho as [Hcc Hz]. subst c. cbn [cmd_op] in *.
       destruct fuel as [|fuel]; [discriminate|]. rewrite exec_oplist_cons in He.
@@ -1509,7 +1854,13 @@ Qed.
 End Sim9.
 
 (* ---------- whole programs ---------- *)
-Definition not_routine (i : instr) : bool := match i_op i with OC_ROUTINE | OC_END => false | _ => true end.
+(* no routine marker: ROUTINE f / END f (the END that closes a matrix block is an ordinary instruction) *)
+Definition not_routine (i : instr) : bool :=
+  match i_op i with
+  | OC_ROUTINE => false
+  | OC_END => match i_p0 i with POperand OD_MATRIX => true | _ => false end
+  | _ => true
+  end.
 
 Lemma load_go_no_routine p : forallb not_routine p = true ->
   forall R M nR tbl, load_go p None R M nR tbl = (R, rev p ++ M, tbl).
@@ -1570,6 +1921,21 @@ Proof.
   - apply andb_true_iff in Hp. destruct Hp as [Hs _]. rewrite c_rval_expr, forallb_app, (c_expr_no_routine e Hs). reflexivity.
 Qed.
 
+Lemma range_no_routine first last a ob : visible first = false -> writable first = true -> visible last = false -> writable last = true ->
+  plain_rval mt a = true -> opt_plain mt ob = true -> forallb not_routine (c_range rt mt (a, ob) first last) = true.
+Proof.
+  intros Hv1 Hw1 Hv2 Hw2 Hpa Hpb. unfold c_range. cbn [fst snd]. rewrite forallb_app, (c_rval_no_routine a (DReg first) Hpa (plain_ok_hidden mt first a Hpa Hv1 Hw1)).
+  destruct ob as [b|]; [exact (c_rval_no_routine b (DReg last) Hpb (plain_ok_hidden mt last b Hpb Hv2 Hw2))|reflexivity].
+Qed.
+Lemma inline_no_routine n rows cols rf : inline_ok mt n rows cols = true -> forallb not_routine (inline_code rt mt n rows cols rf) = true.
+Proof.
+  intros Hok. unfold inline_ok in Hok. apply andb_true_iff in Hok. destruct Hok as [_ Hsp].
+  destruct rows as [[a ob]|]; [|discriminate]. destruct cols as [[c oc]|]; [|discriminate].
+  apply andb_true_iff in Hsp. destruct Hsp as [Hsp Hpoc]. apply andb_true_iff in Hsp. destruct Hsp as [Hsp Hpc]. apply andb_true_iff in Hsp. destruct Hsp as [Hpa Hpob].
+  pose proof (range_no_routine R_FIRST_ROW R_LAST_ROW a ob eq_refl eq_refl eq_refl eq_refl Hpa Hpob) as HR.
+  pose proof (range_no_routine R_FIRST_COLUMN R_LAST_COLUMN c oc eq_refl eq_refl eq_refl eq_refl Hpc Hpoc) as HC.
+  unfold inline_code, c_spans. cbn [fst snd]. rewrite !forallb_app. destruct rf; rewrite ?forallb_app, HR, HC; destruct n; cbn; reflexivity.
+Qed.
 Lemma c_ops_no_routine (c : bool) ops : simple_ops mt c ops = true -> forallb not_routine (c_ops rt mt false (cmd_op c) ops) = true.
 Proof.
   intros Hs. assert (Hop : not_routine (I0 (cmd_op c)) = true) by (destruct c; reflexivity).
@@ -1577,7 +1943,8 @@ Proof.
   - rewrite c_ops_all. cbn [forallb]. rewrite Hop. reflexivity.
   - rewrite c_ops_default. cbn [forallb]. rewrite Hop. reflexivity.
   - induction l as [|o r IH]; [reflexivity|]. cbn [forallb] in Hs. apply andb_true_iff in Hs. destruct Hs as [Ho Hr].
-    destruct o as [k n|n a b| |]; cbn [simple_opnd] in Ho; try discriminate.
+    destruct o as [k n|n a b|n rows cols rf|]; cbn [simple_opnd] in Ho; try discriminate.
+    3: { apply andb_true_iff in Ho. destruct Ho as [Hcc Hz]. subst c. cbn [cmd_op] in *. rewrite c_ops_cons_inline, forallb_app, (IH Hr), (inline_no_routine n rows cols rf Hz). reflexivity. }
     + rewrite c_ops_cons, !forallb_app, (IH Hr). cbn [forallb]. rewrite Hop. destruct n; reflexivity.
     + apply andb_true_iff in Ho. destruct Ho as [Hcc Hz]. subst c. cbn [cmd_op] in *. rewrite c_ops_cons_zone, forallb_app, (IH Hr).
       unfold zone_ok in Hz. apply andb_true_iff in Hz. destruct Hz as [Hz Hpb]. apply andb_true_iff in Hz. destruct Hz as [_ Hpa].
